@@ -59,6 +59,7 @@ type session struct {
 
 // sessionUplinkGeneric is used for passing information about relay uplink to the relay goroutine.
 type sessionUplinkGeneric struct {
+	state         *atomic.Pointer[net.UDPConn]
 	csid          uint64
 	clientName    string
 	natConn       *net.UDPConn
@@ -434,6 +435,7 @@ func (s *UDPSessionRelay) recvFromServerConnGeneric(ctx context.Context, lnc *ud
 
 				s.wg.Go(func() {
 					s.relayServerConnToNatConnGeneric(ctx, sessionUplinkGeneric{
+						state:         &entry.state,
 						csid:          csid,
 						clientName:    clientInfo.Name,
 						natConn:       natConn,
@@ -547,6 +549,13 @@ func (s *UDPSessionRelay) relayServerConnToNatConnGeneric(ctx context.Context, u
 				zap.Duration("natTimeout", uplink.natTimeout),
 				zap.Error(err),
 			)
+		}
+
+		// Stop swaps the session state before expiring natConn's read deadline.
+		// If that happened while the deadline was being re-armed above, expire it again,
+		// or the downlink would keep Stop waiting for a full NAT timeout.
+		if uplink.state.Load() != uplink.natConn {
+			_ = uplink.natConn.SetReadDeadline(conn.ALongTimeAgo)
 		}
 
 		s.putQueuedPacket(queuedPacket)
